@@ -11,6 +11,7 @@ import Driver.C06
 import Driver.Cast
 import Driver.Std
 import Driver.Line
+import Driver.StreamCase
 
 open Jl
 
@@ -22,6 +23,9 @@ def runLine (line : String) : Driver.Result :=
   | ["line", prop, ti, to, line, ext, impl] => Driver.Line.runLine prop ti to line ext impl
   | ["rtrip", _, line, dom, ext, first, second] => Driver.Line.runRoundTrip line dom ext first second
   | ["accept", _, ti, line, ext, impl, go] => Driver.Line.runAccept ti line ext impl go
+  | ["stream", prop, ti, to, proc, reader, writer, ext, impl] =>
+    Driver.StreamCase.runStream prop ti to proc reader writer ext impl
+  | ["scan", sizes, reader, impl] => Driver.StreamCase.runScan sizes reader impl
   | ["emit", prop, to, val, ext, impl] => Driver.Line.runEmit prop to val ext impl
   | ["std", fn, args, impl] => Driver.Std.runCase fn args impl
   | kind :: _ => ⟨"B", s!"unknown case kind or arity: {kind}"⟩
